@@ -13,7 +13,7 @@
     the model's [write_value], and the model's [read_value] of those bytes must give the value back. *)
 From Coq Require Import String List ZArith Bool.
 From VibeSQL Require Import Value.SqlValue Codec.BinUtf8 Codec.BinPrim Codec.BinValue Codec.BinType
-  Codec.BinFile Codec.BinCanon.
+  Codec.BinFile Codec.BinCanon Codec.JsonVal.
 Import ListNotations.
 Open Scope Z_scope.
 
@@ -103,6 +103,52 @@ Definition c18_value_check (base : Z) (cases : list (bvalue * bytes)) : list Z :
                | Unmodelled => true
                | _ => false
                end
+         then [] else [base + i]) ++ go (i + 1) r
+    end in
+  go 0 cases.
+
+(** * JSON format: what a cell looks like in the file save_json wrote, and what load_json made of it.
+    Observed JSON value: null / bool / integer / "some float" (the digits are serde_json's business) /
+    string.  For non-float values the reloaded cell must be what the model computes:
+    [json_value_to_sql] followed by the [Table::insert] normalisation. *)
+Inductive jobs : Type := ONull | OBool (b : bool) | OInt (z : Z) | OFloat | OStr (s : bytes).
+
+Definition jobs_matches (j : json) (o : jobs) : bool :=
+  match j, o with
+  | JNull, ONull => true
+  | JBool a, OBool b => Bool.eqb a b
+  | JInt a, OInt b => a =? b
+  | JFloat _, OFloat => true
+  | JStr a, OStr b => bytes_eqb a b
+  | _, _ => false
+  end.
+
+Definition F_id : fenv := mkFenv (fun b => b) (fun b => b) (fun z => z).
+
+Definition model_reload (v : bvalue) (ty : dtype) : option bvalue :=
+  match json_value_to_sql E18 F_id (sql_value_to_json F_id v) ty with
+  | POk v' => if is_null v' then Some v'
+              else match normalize_value E18 ty v' with (_, NOk v'') => Some v'' | _ => None end
+  | _ => None
+  end.
+
+Definition is_float_value (v : bvalue) : bool :=
+  match v with BV (VNumeric _) | BV (VDouble _) | BV (VFloat _) | BV (VReal _) => finite_value v | _ => false end.
+
+(** (value, column type, observed JSON cell, reloaded cell if the load succeeded) *)
+Definition c18_json_check (base : Z) (cases : list (bvalue * dtype * jobs * option bvalue)) : list Z :=
+  let fix go (i : Z) (l : list (bvalue * dtype * jobs * option bvalue)) : list Z :=
+    match l with
+    | [] => []
+    | (v, ty, o, re) :: r =>
+        (if jobs_matches (sql_value_to_json F_id v) o
+            && (is_float_value v
+                || match re, model_reload v ty with
+                   | Some x, Some y => bvalue_beq x y
+                   | Some _, None => match json_value_to_sql E18 F_id (sql_value_to_json F_id v) ty with
+                                     | PUnknown => true | _ => false end
+                   | None, _ => true
+                   end)
          then [] else [base + i]) ++ go (i + 1) r
     end in
   go 0 cases.
